@@ -397,3 +397,81 @@ def detector_to_xarray(u: Unit):
 
 from . import C14 as _C14  # noqa: E402
 unit("C03", "charge.array_current")(_C14.array_current)   # what a snapshot reads from the charge container is the table as it is NOW (in-place edits included)
+
+
+# ---- Photon.to_xarray of a multi-wavelength cube: the export is labelled by ROW / COLUMN INDICES, whatever labels the stored cube carries ---
+CUBE_REPLAY = lambda w: {"code": """
+import numpy as np, xarray as xr, warnings, verif_probes as VP
+from pyxel.pipelines import DetectionPipeline, ModelFunction, Processor
+from pyxel.exposure import Readout, run_pipeline
+warnings.simplefilter('ignore')
+VIOLATED, DETAIL = False, 'a photon cube with foreign y / x labels is exported on the detector index grid; the other buckets keep their values'
+for labelled in (False, True):
+    det = VP.detector(rows=3, cols=4)
+    cube = xr.DataArray(np.arange(24.0).reshape(2, 3, 4), dims=['wavelength', 'y', 'x'], coords={'wavelength': [500.0, 600.0]})
+    if labelled:
+        cube = cube.assign_coords(y=[5.0, 15.0, 25.0], x=[2.5, 7.5, 12.5, 17.5])          # e.g. pixel-centre positions in micrometres
+    det.photon.array_3d = cube
+    out = det.photon.to_xarray()
+    if list(out['y'].values) != [0, 1, 2] or list(out['x'].values) != [0, 1, 2, 3] or not np.array_equal(out.values, cube.values):
+        VIOLATED, DETAIL = True, f'cube with{"" if labelled else "out"} own y/x labels: exported y={list(out["y"].values)} x={list(out["x"].values)}'; break
+if not VIOLATED:
+    import sys, types
+    m = types.ModuleType('vp_cube'); sys.modules['vp_cube'] = m
+    def put_cube(detector):
+        detector.photon.array_3d = xr.DataArray(np.full((2, 3, 4), 2.0), dims=['wavelength', 'y', 'x'], coords={'wavelength': [500.0, 600.0], 'y': [5.0, 15.0, 25.0], 'x': [2.5, 7.5, 12.5, 17.5]})
+        detector.pixel.array = np.full((3, 4), 9.0); detector.signal.array = np.full((3, 4), 0.5); detector.image.array = np.full((3, 4), 7, dtype=np.uint16)
+    m.put_cube = put_cube
+    for wic in (False, True):
+        pipe = DetectionPipeline(photon_collection=[ModelFunction(func='vp_cube.put_cube', name='c')])
+        dt = run_pipeline(processor=Processor(detector=VP.detector(rows=3, cols=4), pipeline=pipe), readout=Readout(times=[1.0, 2.0]), outputs=None, debug=False, with_inherited_coords=wic, pipeline_seed=None)
+        node = dt['/bucket'] if wic else dt
+        px, im = np.asarray(node['pixel'].values), np.asarray(node['image'].values)
+        if list(np.asarray(node['y'].values)) != [0, 1, 2] or np.isnan(px).any() or not np.all(px[-1] == 9.0) or not np.all(im == 7) or str(node['image'].dtype) != 'uint16':
+            VIOLATED, DETAIL = True, f'inherited coords {wic}: y labels {list(np.asarray(node["y"].values))}, pixel {px.ravel()[:3]}, image {im.ravel()[:3]} ({node["image"].dtype})'; break
+""", "expect": "the photon export always carries y = 0..rows-1, x = 0..cols-1 (foreign labels would re-index every other bucket to NaN)"}
+
+
+@unit("C03", "to_xarray.cube")
+def to_xarray_cube(u: Unit):
+    """Photon.to_xarray with a multi-wavelength cube stored (an xarray object with ARBITRARY coordinates of its own — the boundary answers
+    'is label y present' either way): the exported object is the cube cast to the float type, named 'photon', and ON EVERY PATH its y and x
+    coordinates are set to DataArray(range(rows), dims='y') / DataArray(range(cols), dims='x')."""
+    fi = u.fn(DS + "photon.py::Photon.to_xarray")
+    pci = u.cls(DS + "photon.py::Photon")
+    cfg = Cfg("real")
+    boundary.install(cfg)
+    cfg.contracts["pyxel/util/misc.py::convert_unit"] = Contract("pyxel/util/misc.py::convert_unit", lambda ex, args, kwargs, fr: VStr("unit"), "unit text (astropy)")
+    cfg.lib_overrides[("isinstance", "xr")] = lambda ex, v, libs, clss: VBool(any("DataArray" in x for x in libs))
+
+    def setup(ex):
+        cube = VOpaque("xr", ex.st.fresh_int("cube"), {"label": "cube", "truthy": True})
+        ex.cube = cube
+        me = ex.st.alloc(HObj(pci, {"_array": cube, "_num_rows": VInt(D.ROWS), "_num_cols": VInt(D.COLS), "_numbytes": VInt(0)}))
+        ex.st.assume(z3.And(D.ROWS > 0, D.COLS > 0))
+        return [me], {}
+    ps = u.paths(fi, setup, cfg, label="Photon.to_xarray[cube]")
+    for p in ps:
+        if p.kind != "return":
+            u.oblige(p, "to_xarray.cube.no_raise", False, {"exc": p.exc_name()}, CUBE_REPLAY)
+            continue
+        out = p.value
+        is_cast = isinstance(out, VOpaque) and "astype" in str(out.info.get("label", "")) and out.info.get("fn") is not None and out.info["fn"].info.get("of") is p.ex.cube
+        sets = {}
+        for e in p.st.events:
+            if e[0] == "xr_setitem" and isinstance(e[4], VOpaque) and str(e[4].info.get("label", "")).endswith(".coords") and e[4].info.get("of") is out and isinstance(e[2], VStr):
+                sets[e[2].v] = e[3]
+
+        def index_axis(v, n, dim):
+            if not (isinstance(v, VOpaque) and v.info.get("label") == "xarray.DataArray()"):
+                return z3.BoolVal(False)
+            a, kw = v.info.get("args") or [], v.info.get("kwargs") or {}
+            r = a[0] if a and isinstance(a[0], VRange) else None
+            d = kw.get("dims")
+            if r is None or r.step is not None or not isinstance(d, VStr) or d.v != dim:
+                return z3.BoolVal(False)
+            return z3.And(z_int(int_of(r.lo)) == 0, z_int(int_of(r.hi)) == n)
+        u.oblige(p, "to_xarray.cube.is_the_stored_cube_cast", bool(is_cast), {}, CUBE_REPLAY)
+        u.oblige(p, "to_xarray.cube.labelled_by_row_and_column_index", z3.And(index_axis(sets.get("y"), D.ROWS, "y"), index_axis(sets.get("x"), D.COLS, "x")),
+                 {"coordinates set on the export": str(sorted(sets))}, CUBE_REPLAY)
+    u.cover("to_xarray.cube.cover", ps, lambda p: p.kind == "return")
